@@ -489,6 +489,33 @@ def run(cfg):
                             R.violation('R5', c, e.loc, 'the parsed value is passed through %s: years outside the 32-bit epoch-seconds range (1932..2067) '
                                         'that print correctly parse back as a different date' % ' -> '.join(x.split('ace_time::')[-1] for x in chain))
                             break
+    # R6 the parsers are as lenient as the printers are generous: a chainable parser may refuse a character (the sign),
+    # never a numeric field value - every value a printer can emit has to parse back
+    R.rule('R6', 'no chainable parser rejects on the value of a parsed numeric field', floor=5)
+    for cls in ('LocalDate', 'LocalTime', 'LocalDateTime', 'TimeOffset', 'OffsetDateTime'):
+        for q, fs in lib.funcs.items():
+            if not (q.startswith(NS + cls + '::for') and q.endswith('StringChainable')):
+                continue
+            for f in fs:
+                c = '%s::%s:rejections' % (cls, q.split('::')[-1])
+                R.instance('R6', c, f.loc)
+                numeric = set()
+                for s in walk_stmts(f.body):
+                    tgt = val = None
+                    if s.k == 'decl' and s.a[2] is not None:
+                        tgt, val = s.a[0], s.a[2]
+                    elif s.k == 'assign' and s.a[0].k == 'var':
+                        tgt, val = s.a[0].a[0], s.a[1]
+                    if tgt is not None and any(x.k == 'bin' and x.a[0] == '-' and _chr(x.a[2]) == '0' for x in walk_expr(val)):
+                        numeric.add(tgt)
+                    elif tgt is not None and any(x.k == 'var' and x.a[0] in numeric for x in walk_expr(val)):
+                        numeric.add(tgt)
+                for s in walk_stmts(f.body):
+                    if s.k == 'if' and any(x.k == 'return' and x.a[0] is not None and any(y.k == 'call' and y.a[0].endswith('::forError') for y in walk_expr(x.a[0])) for x in s.a[1]):
+                        used = sorted({x.a[0] for x in walk_expr(s.a[0]) if x.k == 'var' and x.a[0] in numeric})
+                        if used:
+                            R.violation('R6', c, s.loc, 'the parser returns forError() depending on the parsed field(s) %s (%s): a value the printer emits for that field is '
+                                        'no longer read back' % (', '.join(used), show(s.a[0])[:80]))
     return R
 
 
@@ -517,6 +544,7 @@ SELFTEST = [
     dict(id='parser-sign-on-hour-only', file='src/ace_time/TimeOffset.cpp', find='    return forHourMinute(-hour, -minute);', replace='    return forHourMinute(-hour, minute);', rule='R3'),
     dict(id='placeholder-dropped', file='src/ace_time/OffsetDateTime.cpp',
          find='  if (isError()) {\n    printer.print(F("<Invalid OffsetDateTime>"));\n    return;\n  }\n', replace='', rule='R4'),
+    dict(id='offset-parser-rejects-large-hours', file='src/ace_time/TimeOffset.cpp', find="  offsetString = s;\n  if (utcSign == '+') {", replace="  offsetString = s;\n  if (hour > 23 || minute > 59) return forError();\n  if (utcSign == '+') {", rule='R6'),
     dict(id='zoned-parse-through-epoch', file='src/ace_time/ZonedDateTime.h', regex=True, unique=False, nth=0,
          find=r'(static ZonedDateTime forDateString\(const char\* dateString\) \{\n      OffsetDateTime dt = OffsetDateTime::forDateString\(dateString\);\n)      return ZonedDateTime\(dt, TimeZone::forTimeOffset\(dt.timeOffset\(\)\)\);',
          replace=r'\1      return forEpochSeconds(dt.toEpochSeconds(), TimeZone::forTimeOffset(dt.timeOffset()));', rule='R5'),
